@@ -13,7 +13,7 @@ import (
 // schedules cannot reach (interleavings inside what the model treats as one atomic section).
 // The property must hold on every run, so any failure is a genuine violation; passing proves nothing.
 func runStress(f lib.Flags, res *lib.Result) {
-	mon := res.Monitor("single-commit-stress", "R rounds of G goroutines released together, each calling Get of the same absent name on a router with a fresh-client factory (no yield points used): exactly one Auto change, every Get returns the client of that change")
+	mon := res.Monitor("single-commit-stress", "R rounds of G goroutines released together, each calling Get of the same absent name on a router with a fresh-client factory (no yield points used): exactly one Auto change, every Get returns the client of that change; and R/3 rounds of G free-running Adds of distinct clients under one name: the returned previous clients form one chain ending in the registered client, and the reported changes are exactly its links")
 	rounds, g := f.N(1500, 20000), 8
 	for i := 0; i < rounds; i++ {
 		var next atomic.Int64
@@ -55,6 +55,56 @@ func runStress(f lib.Flags, res *lib.Result) {
 				mon.Violate("C12/router.Get/concurrent/returned-uncommitted-client", "every Get must return the committed client", in, fmt.Sprint(autos[0]), fmt.Sprint(got))
 				break
 			}
+		}
+	}
+	// free-running concurrent Adds of distinct clients under one name: the previous-client results must
+	// form one chain (nil once, every client returned at most once, the last one is what Remove returns),
+	// and the reported changes must be exactly those links
+	for i := 0; i < rounds/3; i++ {
+		var mu sync.Mutex
+		links := map[any]any{} // old -> new as reported by onChange
+		dup := false
+		r := router.NewRouter(router.WithOnChange(func(c router.Change) {
+			mu.Lock()
+			if _, ok := links[c.Old]; ok {
+				dup = true
+			}
+			links[c.Old] = c.New
+			mu.Unlock()
+		}))
+		start := make(chan struct{})
+		olds := make([]any, g)
+		var wg sync.WaitGroup
+		for k := 0; k < g; k++ {
+			wg.Add(1)
+			go func(k int) {
+				defer wg.Done()
+				<-start
+				olds[k] = r.Add("n", k+1)
+			}(k)
+		}
+		close(start)
+		wg.Wait()
+		last := r.Remove("n")
+		mon.Eval(fmt.Sprint("add", i), true, nil)
+		in := map[string]any{"kind": "stress", "goroutines": g, "rounds": rounds}
+		seen := map[any]int{}
+		for _, o := range olds {
+			seen[o]++
+		}
+		ok := seen[nil] == 1 && seen[last] == 0 && !dup
+		for k := 1; k <= g; k++ {
+			if k != last && seen[k] != 1 {
+				ok = false
+			}
+		}
+		for k, o := range olds {
+			if links[o] != k+1 {
+				ok = false
+			}
+		}
+		if !ok {
+			mon.Violate("C12/pkg-router/concurrent/not-linearizable", "concurrent Adds under one name must each return the client they replaced (one chain) and report exactly those transitions", in, "a chain nil -> .. -> "+fmt.Sprint(last), fmt.Sprint(olds, links))
 		}
 	}
 }
